@@ -16,7 +16,7 @@ EXPLANATION = (
     "union access confined to `mod entry` (R3), lifetime-only transmutes whose owner is never mutated/moved/cloned "
     "after construction, and every argument a producing function ties to its output lifetime (`fn f<'a>(x: &'a X) -> Vec<Obj<'a>>`) refers to a value stored in that struct too — not to a local of the constructor (R4), the decoder scratch buffer cleared on every path and touched by nobody else, no "
     "re-entrancy (R5), new_unchecked fed by a clamp with positive lower bound (R6); count<=len of copy_slice and the "
-    "Vec<StrainsEntry>/Vec<f64> layout are recorded as ASSUMED (R7/R8). An unsafe operation of a kind with no rule is "
+    "Vec<StrainsEntry>/Vec<f64> layout are recorded as ASSUMED (R7/R8). R4 also freezes the owner inside the constructor: after extend_lifetime the owner local is only moved into the struct literal (no &mut, write or other move on any path). An unsafe operation of a kind with no rule is "
     "reported. Compiler-generated unsafe (Box deref lowering, derives, format_args) is counted, not judged.")
 
 SV = 'util::strains_vec::inner::StrainsVec'
